@@ -45,11 +45,16 @@ var c05Where = []struct {
 	{netip.MustParsePrefix("203.0.113.0/24"), "AU"}, {netip.MustParsePrefix("192.0.2.0/24"), "AU"},
 	{netip.MustParsePrefix("198.51.100.0/24"), "BE"}, {netip.MustParsePrefix("2001:db8:a::/48"), "AU"},
 	{netip.MustParsePrefix("2001:db8:b::/48"), "BE"},
+	// CH and DE: GeoIP subnets that are not byte-aligned and differ only in the last, partly covered byte
+	{netip.MustParsePrefix("100.65.0.0/24"), "CH"}, {netip.MustParsePrefix("100.65.1.0/24"), "DE"},
+	{netip.MustParsePrefix("2001:db8:c::/48"), "CH"}, {netip.MustParsePrefix("2001:db8:d::/48"), "DE"},
 }
 
 var c05Geo = map[string]netip.Prefix{
 	"AU|v4": netip.MustParsePrefix("1.2.0.0/16"), "BE|v4": netip.MustParsePrefix("5.6.0.0/16"),
 	"AU|v6": netip.MustParsePrefix("2a00:1::/32"), "BE|v6": netip.MustParsePrefix("2a00:2::/32"),
+	"CH|v4": netip.MustParsePrefix("9.9.9.0/25"), "DE|v4": netip.MustParsePrefix("9.9.9.128/25"),
+	"CH|v6": netip.MustParsePrefix("2a00:3:0:10::/60"), "DE|v6": netip.MustParsePrefix("2a00:3:0:20::/60"),
 }
 
 func c05Loc(ip netip.Addr) string {
@@ -329,6 +334,8 @@ func TestVerifC05(t *testing.T) {
 		netip.MustParseAddr("203.0.113.7"), netip.MustParseAddr("192.0.2.33"), netip.MustParseAddr("198.51.100.9"),
 		netip.MustParseAddr("100.64.7.7"), // unknown location
 		netip.MustParseAddr("2001:db8:a::7"), netip.MustParseAddr("2001:db8:b::9"), netip.MustParseAddr("2001:db8:ffff::1"),
+		netip.MustParseAddr("100.65.0.5"), netip.MustParseAddr("100.65.1.5"), netip.MustParseAddr("2001:db8:c::5"),
+		netip.MustParseAddr("2001:db8:d::5"),
 	}
 	subs := []netip.Prefix{
 		netip.MustParsePrefix("198.51.100.0/24"), netip.MustParsePrefix("203.0.113.128/25"), netip.MustParsePrefix("192.0.2.0/24"),
